@@ -97,6 +97,26 @@ theorem computeAttrs_ok (decls : List AttrDecl) (a : Attrs)
 
 /-! ### marks -/
 
+theorem computeAttrsJ_attrsToJ (decls : List AttrDecl) (a : Attrs) :
+    computeAttrsJ decls (some (attrsToJ a)) = computeAttrs decls a := by
+  unfold computeAttrsJ
+  cases a with
+  | nil => simp [attrsToJ, J.truthy]
+  | cons p l =>
+    have : (attrsToJ (p :: l)).truthy = true := by simp [attrsToJ, J.truthy]
+    simp only [this, Bool.not_true, Bool.false_eq_true, if_false]
+    have h := attrsOfJ_attrsToJ (p :: l)
+    simp only [attrsToJ] at h ⊢
+    rw [h]
+
+theorem computeAttrsJ_optField (decls : List AttrDecl) (a : Attrs) :
+    computeAttrsJ decls (if a.isEmpty then none else some (attrsToJ a)) = computeAttrs decls a := by
+  cases a with
+  | nil => rfl
+  | cons p l =>
+    simp only [List.isEmpty_cons, Bool.false_eq_true, if_false]
+    exact computeAttrsJ_attrsToJ decls (p :: l)
+
 theorem markOfJ_markToJ (S : Schema) (m : Mark) (hfind : S.findMark (S.markName m.ty) = some m.ty)
     (hattrs : computeAttrs (S.markType m.ty).attrs m.attrs = .ok m.attrs) :
     S.markOfJ (S.markToJ m) = .ok m := by
@@ -106,7 +126,12 @@ theorem markOfJ_markToJ (S : Schema) (m : Mark) (hfind : S.findMark (S.markName 
     simp only [Schema.markToJ]
     rw [J.get_cons_ne (by decide), J.get_cons_eq]
   have h3 : (S.markToJ m).truthy = true := by simp [Schema.markToJ, J.truthy]
-  simp only [Schema.markOfJ, h1, h2, h3, hfind, attrsOfJ_attrsToJ, hattrs]
+  have h4 : computeAttrsJ (S.markType m.ty).attrs (some (attrsToJ m.attrs)) = .ok m.attrs := by
+    rw [computeAttrsJ_attrsToJ, hattrs]
+  unfold Schema.markOfJ
+  rw [h3]
+  simp only [Schema.markToJ] at h1 h2 ⊢
+  simp only [h1, h2, hfind, h4]
   rfl
 
 theorem mapM_markOfJ (S : Schema) : ∀ (ms : Marks), (∀ m, m ∈ ms → S.markOfJ (S.markToJ m) = .ok m) →
@@ -149,7 +174,7 @@ theorem nodeOfJ_text (S : Schema) (fuel : Nat) (kv : List (String × J)) (marks 
     S.nodeOfJ (fuel + 1) (.obj kv) = .ok (.text u marks) := by
   have h1 : kv.isEmpty = false := by cases kv <;> simp_all
   have h2 : u.isEmpty = false := by cases u <;> simp_all
-  simp only [Schema.nodeOfJ, h1, hm, ht, hx, h2]
+  simp only [Schema.nodeOfJ, h1, hm, ht, hx, pyStrUnits, h2]
   simp
 
 theorem nodeOfJ_typed (S : Schema) (fuel : Nat) (kv : List (String × J)) (marks : Marks) (name : String)
@@ -159,15 +184,28 @@ theorem nodeOfJ_typed (S : Schema) (fuel : Nat) (kv : List (String × J)) (marks
     (hfind : S.findNode name = some t)
     (hc : ((J.obj kv).get "content" = none ∧ kids = []) ∨
           ∃ l, (J.obj kv).get "content" = some (.arr l) ∧ S.kidsOfJ fuel l = .ok kids)
-    (ha : computeAttrs (S.nodeType t).attrs (attrsOfJ ((J.obj kv).get "attrs")) = .ok a) :
+    (ha : computeAttrsJ (S.nodeType t).attrs ((J.obj kv).get "attrs") = .ok a) :
     S.nodeOfJ (fuel + 1) (.obj kv) =
       if (S.nodeType t).isLeaf then .ok (.leaf t a marks) else .ok (.elem t a marks kids) := by
   have h1 : kv.isEmpty = false := by cases kv <;> simp_all
-  simp only [Schema.nodeOfJ, h1, hm, ht]
-  simp only [Bool.false_eq_true, if_false, hfind]
-  rcases hc with ⟨hc, rfl⟩ | ⟨l, hc, hk⟩
-  · simp only [hc, ha]
-  · simp only [hc, hk, ha]
+  unfold Schema.nodeOfJ
+  simp only [h1, Bool.false_eq_true, if_false, hm, ht]
+  split
+  · rename_i heq; simp at heq
+  · rename_i heq
+    simp only [Option.some.injEq, J.str.injEq] at heq
+    exact (hname heq).elim
+  · rename_i ty _ _ heq
+    simp only [Option.some.injEq] at heq
+    subst heq
+    rcases hc with ⟨hc, rfl⟩ | ⟨l, hc, hk⟩
+    · simp only [hc, hfind, ha]
+    · cases l with
+      | nil =>
+        simp only [Schema.kidsOfJ, Except.ok.injEq] at hk
+        subst hk
+        simp [hc, J.truthy, hfind, ha]
+      | cons x xs => simp [hc, J.truthy, hk, hfind, ha]
 
 
 theorem get_optField_other {k k' : String} (hk : k' ≠ k) (c : Prop) [Decidable c] (v : J)
@@ -241,7 +279,7 @@ theorem nodeOfJ_nodeToJ_leaf (S : Schema) (fuel : Nat) (t : TypeId) (a : Attrs) 
   · rw [J.get_cons_ne (by decide), get_optField_other (by decide)]
     exact get_marksField_nomarks S m (by decide)
   · rw [J.get_cons_ne (by decide), get_optField_same, get_marksField_nomarks S m (by decide)]
-    rw [attrsOfJ_optField, ha]
+    rw [computeAttrsJ_optField, ha]
 
 theorem nodeOfJ_nodeToJ_elem (S : Schema) (fuel : Nat) (t : TypeId) (a : Attrs) (m : Marks)
     (kids : List Node)
@@ -263,7 +301,7 @@ theorem nodeOfJ_nodeToJ_elem (S : Schema) (fuel : Nat) (t : TypeId) (a : Attrs) 
     · left; rw [if_pos h0]; exact ⟨rfl, hk0 h0⟩
     · right; rw [if_neg h0]; exact ⟨_, rfl, hkids⟩
   · rw [J.get_cons_ne (by decide), get_optField_same, get_optField_other (by decide),
-      get_marksField_nomarks S m (by decide), attrsOfJ_optField, ha]
+      get_marksField_nomarks S m (by decide), computeAttrsJ_optField, ha]
 
 
 /-! ### fragments, slices -/
@@ -314,15 +352,20 @@ theorem sliceOfJ_sliceToJ (S : Schema) (fuel : Nat) (sl : Slice)
     have hc : ∀ rest, J.get (.obj (("content", S.fragToJ c) :: rest)) "content" = some (S.fragToJ c) :=
       fun rest => J.get_cons_eq _ _ _
     have hfr := fragOfJ_fragToJ S fuel c hk
+    have e1 : (if os = 0 then some 0 else some os) = some os := by split <;> simp_all
+    have e2 : (if oe = 0 then some 0 else some oe) = some oe := by split <;> simp_all
     by_cases h1 : os > 0 <;> by_cases h2 : oe > 0 <;>
-      simp [Schema.sliceOfJ, J.truthy, h1, h2, J.get, List.find?, hfr, Except.map]
+      simp [Schema.sliceOfJ, J.truthy, h1, h2, J.get, List.find?, hfr, Except.map, openOfJ, e1, e2]
     all_goals omega
 
 
 /-! ### steps -/
 
-theorem natOfJ_num (n : Nat) : natOfJ (some (.num (n : Int))) = some n := by
-  simp [natOfJ]
+theorem intField_num (j : J) (k : String) (n : Nat) (cont : Nat → Res α)
+    (h : j.get k = some (.num (n : Int))) : intField j k cont = cont n := by
+  unfold intField
+  rw [h]
+  simp
 
 theorem boolOfJ_structField (b : Bool) (k : String) (hk : k = "structure") :
     boolOfJ (J.get (.obj (structField b)) k) = b := by
@@ -353,31 +396,21 @@ theorem structure_sliceField (S : Schema) (sl : Slice) (b : Bool) :
   · rw [List.cons_append, J.get_cons_ne (by decide), List.nil_append]; exact boolOfJ_structField b _ rfl
   · exact boolOfJ_structField b _ rfl
 
+theorem J.get_cons (k k' : String) (v : J) (rest : List (String × J)) :
+    J.get (.obj ((k', v) :: rest)) k = if k' = k then some v else J.get (.obj rest) k := by
+  by_cases h : k' = k
+  · subst h; rw [if_pos rfl, J.get_cons_eq]
+  · rw [if_neg h, J.get_cons_ne h]
+
 theorem stepOfJ_replace (S : Schema) (fuel : Nat) (f t : Nat) (sl : Slice) (b : Bool)
     (h0 : fsize sl.content = 0 → sl = Slice.empty)
     (hk : S.kidsOfJ fuel (S.kidsToJ sl.content) = .ok sl.content) :
     S.stepOfJ fuel (S.stepToJ (.replace f t sl b)) = .ok (.replace f t sl b) := by
   simp only [Schema.stepToJ, List.cons_append, List.nil_append]
   unfold Schema.stepOfJ
-  rw [J.get_cons_eq]
-  simp only [J.get_cons_ne (k := "from") (k' := "stepType") (by decide), J.get_cons_eq,
-    J.get_cons_ne (k := "to") (k' := "stepType") (by decide),
-    J.get_cons_ne (k := "to") (k' := "from") (by decide),
-    J.get_cons_ne (k := "slice") (k' := "stepType") (by decide),
-    J.get_cons_ne (k := "slice") (k' := "from") (by decide),
-    J.get_cons_ne (k := "slice") (k' := "to") (by decide),
-    J.get_cons_ne (k := "structure") (k' := "stepType") (by decide),
-    J.get_cons_ne (k := "structure") (k' := "from") (by decide),
-    J.get_cons_ne (k := "structure") (k' := "to") (by decide),
-    natOfJ_num, sliceOfJ_sliceField S fuel sl b h0 hk, structure_sliceField]
+  simp only [J.get_cons, String.reduceEq, if_true, if_false, intField,
+    sliceOfJ_sliceField S fuel sl b h0 hk, structure_sliceField]
   simp [stepIds, Except.map]
-
-
-theorem J.get_cons (k k' : String) (v : J) (rest : List (String × J)) :
-    J.get (.obj ((k', v) :: rest)) k = if k' = k then some v else J.get (.obj rest) k := by
-  by_cases h : k' = k
-  · subst h; rw [if_pos rfl, J.get_cons_eq]
-  · rw [if_neg h, J.get_cons_ne h]
 
 theorem stepOfJ_replaceAround (S : Schema) (fuel : Nat) (f t gf gt : Nat) (sl : Slice) (ins : Nat) (b : Bool)
     (h0 : fsize sl.content = 0 → sl = Slice.empty)
@@ -386,7 +419,7 @@ theorem stepOfJ_replaceAround (S : Schema) (fuel : Nat) (f t gf gt : Nat) (sl : 
   simp only [Schema.stepToJ, List.cons_append, List.nil_append]
   unfold Schema.stepOfJ
   simp only [J.get_cons, String.reduceEq, if_true, if_false,
-    natOfJ_num, sliceOfJ_sliceField S fuel sl b h0 hk, structure_sliceField]
+    intField, sliceOfJ_sliceField S fuel sl b h0 hk, structure_sliceField]
   simp [stepIds, Except.map]
 
 theorem stepOfJ_addMark (S : Schema) (fuel : Nat) (f t : Nat) (m : Mark)
@@ -394,7 +427,7 @@ theorem stepOfJ_addMark (S : Schema) (fuel : Nat) (f t : Nat) (m : Mark)
     S.stepOfJ fuel (S.stepToJ (.addMark f t m)) = .ok (.addMark f t m) := by
   simp only [Schema.stepToJ]
   unfold Schema.stepOfJ
-  simp only [J.get_cons, String.reduceEq, if_true, if_false, natOfJ_num, hm]
+  simp only [J.get_cons, String.reduceEq, if_true, if_false, intField, Schema.markField, hm]
   simp [stepIds, Except.map]
 
 theorem stepOfJ_removeMark (S : Schema) (fuel : Nat) (f t : Nat) (m : Mark)
@@ -402,7 +435,7 @@ theorem stepOfJ_removeMark (S : Schema) (fuel : Nat) (f t : Nat) (m : Mark)
     S.stepOfJ fuel (S.stepToJ (.removeMark f t m)) = .ok (.removeMark f t m) := by
   simp only [Schema.stepToJ]
   unfold Schema.stepOfJ
-  simp only [J.get_cons, String.reduceEq, if_true, if_false, natOfJ_num, hm]
+  simp only [J.get_cons, String.reduceEq, if_true, if_false, intField, Schema.markField, hm]
   simp [stepIds, Except.map]
 
 theorem stepOfJ_addNodeMark (S : Schema) (fuel : Nat) (p : Nat) (m : Mark)
@@ -410,7 +443,7 @@ theorem stepOfJ_addNodeMark (S : Schema) (fuel : Nat) (p : Nat) (m : Mark)
     S.stepOfJ fuel (S.stepToJ (.addNodeMark p m)) = .ok (.addNodeMark p m) := by
   simp only [Schema.stepToJ]
   unfold Schema.stepOfJ
-  simp only [J.get_cons, String.reduceEq, if_true, if_false, natOfJ_num, hm]
+  simp only [J.get_cons, String.reduceEq, if_true, if_false, intField, Schema.markField, hm]
   simp [stepIds, Except.map]
 
 theorem stepOfJ_removeNodeMark (S : Schema) (fuel : Nat) (p : Nat) (m : Mark)
@@ -418,14 +451,14 @@ theorem stepOfJ_removeNodeMark (S : Schema) (fuel : Nat) (p : Nat) (m : Mark)
     S.stepOfJ fuel (S.stepToJ (.removeNodeMark p m)) = .ok (.removeNodeMark p m) := by
   simp only [Schema.stepToJ]
   unfold Schema.stepOfJ
-  simp only [J.get_cons, String.reduceEq, if_true, if_false, natOfJ_num, hm]
+  simp only [J.get_cons, String.reduceEq, if_true, if_false, intField, Schema.markField, hm]
   simp [stepIds, Except.map]
 
 theorem stepOfJ_attr (S : Schema) (fuel : Nat) (p : Nat) (n v : String) :
     S.stepOfJ fuel (S.stepToJ (.attr p n v)) = .ok (.attr p n v) := by
   simp only [Schema.stepToJ]
   unfold Schema.stepOfJ
-  simp only [J.get_cons, String.reduceEq, if_true, if_false, natOfJ_num]
+  simp only [J.get_cons, String.reduceEq, if_true, if_false, intField]
   simp [stepIds]
 
 theorem stepOfJ_docAttr (S : Schema) (fuel : Nat) (n v : String) :
@@ -446,10 +479,12 @@ theorem stepToJ_stepType (S : Schema) (st : Step) :
 theorem stepOfJ_unknown_aux (S : Schema) (fuel : Nat) (kv : List (String × J)) (name : String)
     (h : (J.obj kv).get "stepType" = some (.str name)) (hn : name ∉ stepIds) :
     S.stepOfJ fuel (J.obj kv) = .error .valueError := by
-  unfold Schema.stepOfJ
-  rw [h]
+  have hne : kv.isEmpty = false := by
+    cases kv with
+    | nil => simp [J.get] at h
+    | cons _ _ => rfl
   have : stepIds.contains name = false := by simpa using hn
-  simp only [this, Bool.not_false, if_true]
+  simp only [Schema.stepOfJ, hne, h, this, Bool.not_false, if_true, Bool.false_eq_true, if_false]
 
 
 end PM
